@@ -75,7 +75,9 @@ func acrhApproved(allowedSorted []string, lines []string) bool {
 var c14NamePool = []string{"a", "ab", "abc", "b", "x-a", "x-ab", "x-abc", "x-b", "foo", "foo-bar", "x-foo", "authorization", "content-type", "zzzzzzzzzzzzzzzzzzzz",
 	"x", "accept", "x-requested-with", "a-", "a-b", "a0", "a!", "b~",
 	"x-trace-id", "x-request-id", "x-api-key", "x-csrf-token", "if-none-match", "if-match", "range", "x-a-b", "x-aa", "x-ab-c", "x-b-a", "x-c", "x-d", "x-e", "x-f", "x-g", "x-h", "x-i",
-	strings.Repeat("n", 63), strings.Repeat("n", 64), "x-" + strings.Repeat("long-", 13), strings.Repeat("q", 128), "b-" + strings.Repeat("huge-", 60), strings.Repeat("m", 255), strings.Repeat("m", 256), "c" + strings.Repeat("w", 257), "x-j", "x-k", "x-l", "x-m", "x-n", "x-o", "x-p", "x-q", "x-r", "x-s", "x-t", "x-u", "x-v", "x-w", "x-x", "x-y", "x-z", "y", "y-a", "z", "z-a", "accept-language", "content-language"}
+	strings.Repeat("n", 63), strings.Repeat("n", 64), "x-" + strings.Repeat("long-", 13), strings.Repeat("q", 128), "b-" + strings.Repeat("huge-", 60), strings.Repeat("m", 255), strings.Repeat("m", 256), "c" + strings.Repeat("w", 257), "x-j", "x-k", "x-l", "x-m", "x-n", "x-o", "x-p", "x-q", "x-r", "x-s", "x-t", "x-u", "x-v", "x-w", "x-x", "x-y", "x-z", "y", "y-a", "z", "z-a", "accept-language", "content-language",
+	// every kind of token byte that is not a letter, a digit or a hyphen
+	"x_csrf_token", "x_forwarded_for", "x-trace_id", "a_b", "_", "x^y", "x.y", "x+y", "a#b", "$x", "%x", "&x", "'x", "x*y", "x|y", "x`y", "~", "9", "0-a", "x!"}
 
 func normNames(names []Str) []string {
 	set := map[string]bool{}
@@ -113,8 +115,23 @@ func c14Gen(t *rapid.T) C14Case {
 	n = intIn(t, "nnames", 1, n)
 	for i := 0; i < n; i++ {
 		nm := pick(t, "name", c14NamePool)
-		if chance(t, "case", 30) {
+		if chance(t, "tokenname", 12) {
+			nm = genTokenName(t, "req") // straight from the token grammar, any letter case
+		}
+		switch k := uniform(t, "case", 100); {
+		case k < 25:
 			nm = strings.ToUpper(nm[:1]) + nm[1:]
+		case k < 35:
+			nm = strings.ToUpper(nm)
+		case k < 55:
+			// header names are case-insensitive in the configuration: any subset of the letters in upper case
+			b := []byte(nm)
+			for j := range b {
+				if 'a' <= b[j] && b[j] <= 'z' && chance(t, "upper", 40) {
+					b[j] -= 32
+				}
+			}
+			nm = string(b)
 		}
 		c.Names = append(c.Names, Str(nm))
 	}
